@@ -56,14 +56,19 @@ Join2(c1, c2) ==      \* every way two compounds can stand next to each other
     \cup (IF c2[1].k \in {"delim", "colon", "brack", "idhash"} /\ ~(c2[1].k = "delim" /\ c2[1].v \in {"*", "&"}) /\ ~(c1[Len(c1)].k = "delim")
           THEN { c1 \o c2 } ELSE {})                                                    \* no gap: one compound
 Sel2(lazy) == UNION { Join2(c1, c2) : c1 \in Compounds, c2 \in Compounds }
-SelFew == UNION { Join2(c1, c2) : c1 \in {<<Dl(".", FALSE), I("a", FALSE)>>, <<I("div", FALSE)>>, <<Col(FALSE), I("hover", FALSE)>>},
+(* (the class `1` is written `\31 ` - an escape ending in the white space that terminates it - and serialised the same way) *)
+SelFew == UNION { Join2(c1, c2) : c1 \in {<<Dl(".", FALSE), I("a", FALSE)>>, <<I("div", FALSE)>>, <<Col(FALSE), I("hover", FALSE)>>, <<Dl(".", FALSE), I("1", FALSE)>>},
                                   c2 \in {<<Dl(".", FALSE), I("b", FALSE)>>, <<Hs("i1", FALSE)>>, <<Brk(<<I("x", FALSE)>>, FALSE)>>} }
+(* a compound that starts with a type selector and a pseudo-class, then a class: as the argument of a selector function or
+   in a prelude block its first two tokens look like `name:` of a declaration *)
+SelTypePseudo == { <<I("li", FALSE), Col(FALSE), I("hover", FALSE), Dl(".", TRUE), I("tip", FALSE)>>,
+                   <<I("li", FALSE), Col(TRUE), I("hover", FALSE), Dl(".", FALSE), I("tip", FALSE), Com(FALSE), Dl(".", TRUE), I("other", FALSE)>> }
 RECURSIVE NestR(_, _)
 NestR(fs, s) == IF fs = <<>> THEN s ELSE <<Col(FALSE), Fn(Head(fs), NestR(Tail(fs), s), FALSE)>>
 FuncNests == IF Scale = "quick" THEN { <<"not">>, <<"is", "not">>, <<"where", "has", "not">> }
              ELSE { <<"not">>, <<"is">>, <<"where">>, <<"has">>, <<"host">>, <<"not", "is">>, <<"is", "not">>, <<"where", "has", "not">>,
                     <<"not", "is", "where">> }
-SelNested(lazy) == { <<Dl(".", FALSE), I("x", FALSE)>> \o NestR(fs, s) : fs \in FuncNests, s \in SelFew }
+SelNested(lazy) == { <<Dl(".", FALSE), I("x", FALSE)>> \o NestR(fs, s) : fs \in FuncNests, s \in SelFew \cup SelTypePseudo }
              \cup { <<Col(FALSE), Col(FALSE), Fn("slotted", s, FALSE)>> : s \in SelFew }
              \cup { <<I("li", FALSE), Col(FALSE), Fn("nth-child", <<Dim(29, "n", FALSE), Num(30, FALSE), I("of", TRUE)>> \o SetW(s, TRUE), FALSE)>> : s \in SelFew }
              \cup { <<Col(FALSE), Fn("not", <<Dl(".", w), I("a", FALSE), Com(FALSE), Dl(".", TRUE), I("b", FALSE)>>, FALSE), Dl(".", w), I("c", FALSE)>> : w \in BOOLEAN }
